@@ -9,6 +9,13 @@ such a history makes of the content (set semantics, labels = ranks):
 * `remove_edge` (KeyError when absent)                                                                   <-> `removeEdge`
 * `remove_node(node, keep_edges)` (incident hyperedges dropped, or re-inserted without the node - possibly `()`) <-> `removeNode`
 * `clear`, `copy` (an independent object with the same content), `subhypergraph(nodes)`                  <-> `clear`, `Op.copy`, `sub`
+* `populate_from_dict(deepcopy(other.expose_data_structures()))` (restore a snapshot)                    <-> `Op.restore`
+* an object a loader / generator / filter hands over (`load_hypergraph`, `random_hypergraph`, `subhypergraph_by_orders`,
+  `get_edges(subhypergraph=True)`, ...) enters a program with the content it LISTS                        <-> `Op.load`
+* the listing of an object taken as its new starting point (after a call that raised, `add_random_edge`)  <-> `Op.put`
+
+A call the code REJECTS (KeyError for an absent hyperedge / node) is part of a history like any other call: `stepSkip` /
+`runSkip` leave every object as it was and go on (`run` stops there) - a user catches the exception and continues.
 
 A program state is the list of the objects created so far; `step` applies one operation to ONE object and leaves every
 other object as it is (`Hgxv/Props/C08.lean`, `C08_history_frame`): that is the specification a shallow `copy()`
@@ -70,6 +77,9 @@ inductive Op where
   | clear (i : Nat)
   | copy (i : Nat)
   | sub (i : Nat) (ns : List Nat)
+  | restore (i src : Nat)
+  | load (c : Content)
+  | put (i : Nat) (c : Content)
 deriving Repr, DecidableEq
 
 /-- apply `f` to object `i` only -/
@@ -87,6 +97,11 @@ def step (st : List Content) : Op → Option (List Content)
   | .clear i => modifyAt st i (fun c => some (clear c))
   | .copy i => (st[i]?).map (fun c => st ++ [c])
   | .sub i ns => (st[i]?).map (fun c => st ++ [sub c ns])
+  | .restore i src => match st[src]? with
+    | some c => modifyAt st i (fun _ => some c)
+    | none => none
+  | .load c => some (st ++ [c])
+  | .put i c => modifyAt st i (fun _ => some c)
 
 /-- a whole program, started from one empty hypergraph -/
 def run : List Content → List Op → Option (List Content)
@@ -94,6 +109,12 @@ def run : List Content → List Op → Option (List Content)
   | st, op :: ops => match step st op with
     | some st' => run st' ops
     | none => none
+
+/-- one call of a history in which rejected calls are caught: a rejected call changes nothing -/
+def stepSkip (st : List Content) (op : Op) : List Content := (step st op).getD st
+
+/-- a whole program with rejected calls inside: they are skipped, the calls after them are applied -/
+def runSkip (st : List Content) (ops : List Op) : List Content := ops.foldl stepSkip st
 
 end Hist
 end C08
